@@ -34,7 +34,13 @@ __all__ = ['dump', 'dumps', 'loads', 'load']
 
 
 LABEL_VALID_CHARS = set(string.ascii_letters + string.digits + "'!\"#$%&(),.;?@_‘’{}~")
-LABEL_INVALID_FIRST_CHARS = set('eE.' + string.digits)
+LABEL_INVALID_FIRST_CHARS = set('eE.;' + string.digits)
+# identifiers the LP reader takes for something else (case-insensitive): section keywords,
+# and anything `strtod` starts to read as a number
+LABEL_RESERVED_WORDS = frozenset((
+    'minimize min minimum maximize max maximum st s.t. bounds bound binary binaries bin general '
+    'generals gen integer integers semi semis sos end free').split())
+LABEL_INVALID_PREFIXES = ('inf', 'nan')
 
 
 def _sign(bias: float) -> str:
@@ -73,6 +79,8 @@ def _validate_label(label: collections.abc.Hashable):
     if any(label.startswith(c) for c in LABEL_INVALID_FIRST_CHARS):
         _label_error(label, f'labels must not start with any of these characters: '
                            f'{"".join(sorted(LABEL_INVALID_FIRST_CHARS))}')
+    if label.lower() in LABEL_RESERVED_WORDS or label.lower().startswith(LABEL_INVALID_PREFIXES):
+        _label_error(label, 'labels must not be LP keywords or start with "inf" or "nan"')
 
 
 class _WidthLimitedFile:
